@@ -135,6 +135,7 @@ def border_normals(mesh : SurfaceMesh, name="borderNormals", persistent: bool = 
     else:
         bnormals = ArrayAttribute(float, len(mesh.vertices), 3) if dense else Attribute(float, 3)
 
+    fnormals = face_normals(mesh, persistent=False) # also defined for faces with more than 3 vertices
     for v in mesh.boundary_vertices:
         v0 = mesh.connectivity.vertex_to_vertices(v)[0]
         v1 = mesh.connectivity.vertex_to_vertices(v)[-1]
@@ -145,8 +146,8 @@ def border_normals(mesh : SurfaceMesh, name="borderNormals", persistent: bool = 
         if T0 is None: T0 = mesh.connectivity.direct_face(v,v0)
         T1 = mesh.connectivity.direct_face(v,v1)
         if T1 is None: T1 = mesh.connectivity.direct_face(v1,v)
-        _,_,N0 = geom.face_basis(*mesh.pt_of_face(T0))
-        _,_,N1 = geom.face_basis(*mesh.pt_of_face(T1))
+        N0 = fnormals[T0]
+        N1 = fnormals[T1]
         bnormals[v] = geom.cross(E0,N0) + geom.cross(E1,N1)
         bnormals[v] = Vec.normalized(bnormals[v])
     return bnormals
